@@ -68,6 +68,25 @@ def login_script(rng, cfg, scope, tag):
     return [(p, rng.randint(0, 1), [pw] if pw else [])]
 
 
+def start_sweep(cfg, scope, tag):
+    """every action x authentication type x service x minor version START, each followed by the user name and the right
+    password: only (LOGIN, ASCII, minor 0) and (LOGIN, PAP, minor 1) may end in PASS"""
+    out = []
+    pw = pw_of(cfg, scope, "alice")
+    for action in (1, 2, 4):
+        for atype in (1, 2, 3, 4, 5, 6):
+            for service in (0, 1, 2, 3, 9):
+                for minor in (0, 1):
+                    for inst in (True, False):
+                        s0 = start("alice" if inst else "", pw if atype != 1 else "", atype=atype, action=action, service=service)
+                        sc = [(s0, minor, [])]
+                        if not inst:
+                            sc.append((cont("alice"), minor, []))
+                        sc.append((cont(pw), minor, []))
+                        out.append(sc)
+    return out
+
+
 def rand_text(rng, n, cls="plain"):
     if cls == "plain":
         return "".join(rng.choice("abcdefghijklmnopqrstuvwxyz0123456789-_./ ") for _ in range(n))
@@ -417,6 +436,14 @@ def collect(ctx, prop):
     scen = [scenario(rng, i, prop, tag) for i in range(n)]
     if prop == "C09":
         scen += exhaustive_c09(rng, tag, 300 if quick else 6000)
+    if prop == "C10":
+        cfg0 = base_cfg(rng, tag)
+        sw = start_sweep(cfg0, "s1", tag)
+        if quick:
+            rng.shuffle(sw)
+            sw = sw[:240]
+        for i, sc_ in enumerate(sw):
+            scen.append({"id": "c10sweep-%d" % i, "cfg": cfg0, "conns": [{"c": 1, "addr": "10.1.0.5"}], "steps": session_steps(1, 0, sc_, fl=1), "iso": False, "log": False})
     mcinfo = None
     if prop in ("C07", "C09", "C10", "C14", "C18"):
         r0, mcs, mctotal = mc_ref_scenarios(ctx, rng, prop, 600 if quick else 20000)
